@@ -645,19 +645,24 @@ func (w *World) buildQuery(f *FuncCtx, o *Obligation) string {
 	q.WriteString("(set-option :produce-models true)\n(set-logic ALL)\n")
 	q.WriteString(preludeText)
 	q.WriteString("\n")
-	q.WriteString(w.sliceDecls())
+	q.WriteString("\x00SLICEDECLS\x00")
 	for _, r := range w.rawSMT {
 		q.WriteString(r + "\n")
 	}
-	// string literals used
+	// string literals used (only those: a query must not depend on what else the run has looked at), in a stable order
 	var lits []string
+	var usedLits []string
 	for _, s := range w.strOrd {
+		if syms[w.strLits[s]] {
+			usedLits = append(usedLits, s)
+		}
+	}
+	sort.Strings(usedLits)
+	for _, s := range usedLits {
 		c := w.strLits[s]
 		q.WriteString("(declare-const " + c + " GoStr)\n")
-		if syms[c] {
-			lits = append(lits, c)
-			fmt.Fprintf(&q, "(assert (= (str_len %s) %d))\n", c, len(s))
-		}
+		lits = append(lits, c)
+		fmt.Fprintf(&q, "(assert (= (str_len %s) %d))\n", c, len(s))
 	}
 	if len(lits) > 1 {
 		q.WriteString("(assert (distinct " + strings.Join(lits, " ") + "))\n")
@@ -678,6 +683,9 @@ func (w *World) buildQuery(f *FuncCtx, o *Obligation) string {
 		}
 	}
 	for _, d := range w.globalDecls {
+		if fs := strings.Fields(d); len(fs) >= 2 && !syms[fs[1]] {
+			continue
+		}
 		q.WriteString(d + "\n")
 	}
 	for _, s := range specs {
@@ -701,7 +709,38 @@ func (w *World) buildQuery(f *FuncCtx, o *Obligation) string {
 	if o.Expect == "sat" {
 		q.WriteString(";cover\n") // vacuity guards: an inconclusive answer is cached too (only `unsat` is a failure)
 	}
-	return q.String()
+	// slice sorts: only those the query mentions (closed under element sorts), in declaration order
+	text := q.String()
+	used := map[string]bool{}
+	for changed := true; changed; {
+		changed = false
+		for _, name := range w.sliceOrd {
+			if used[name] {
+				continue
+			}
+			if strings.Contains(text, name+" ") || strings.Contains(text, name+")") || strings.Contains(text, "_"+name+" ") {
+				used[name] = true
+				changed = true
+				continue
+			}
+			for other := range used {
+				if strings.Contains(w.sliceSorts[other], name) {
+					used[name] = true
+					changed = true
+				}
+			}
+		}
+	}
+	var sd strings.Builder
+	for _, name := range w.sliceOrd {
+		if !used[name] {
+			continue
+		}
+		es := w.sliceSorts[name]
+		fmt.Fprintf(&sd, "(declare-datatypes ((%s 0)) (((mk_%s (len_%s Int) (arr_%s (Array Int %s))))))\n", name, name, name, name, es)
+		fmt.Fprintf(&sd, "(declare-const nilarr_%s (Array Int %s))\n(define-fun nil_%s () %s (mk_%s 0 nilarr_%s))\n", name, es, name, name, name, name)
+	}
+	return strings.Replace(text, "\x00SLICEDECLS\x00", sd.String(), 1)
 }
 
 var preludeFunCache []string
